@@ -15,6 +15,7 @@ STATUS (layered, DESIGN §7.1 / Appendix E):
 import Ssv.Proofs.QbftAbstract
 import Ssv.Proofs.Kernels
 import Ssv.Gen.Qbft
+import Ssv.Model.Qbft.Instance
 
 namespace Ssv.Qbft
 
@@ -52,5 +53,26 @@ theorem C01_tie_rule_anchors :
     Gen.calls_qbft_node_isProposalJustification =
       ["valCheck", "validRoundChangeForData", "HasQuorum", "RoundChangePrepared", "HasQuorum", "highestPrepared", "HashDataRoot",
        "validSignedPrepareForHeightRoundAndRoot"] := by decide
+
+/-- `getRoundChangeData` (the content of every round-change an operator creates: timeout, partial-quorum pull): ONE condition —
+    `LastPreparedRound != NoRound && LastPreparedValue != nil` — separates the prepared answer (prepared round, H(value), value,
+    whatever `getRoundChangeJustification` still finds) from the unprepared one; the only other tests are the two error checks. In
+    particular nothing looks at the number of justifications: a prepared operator ALWAYS announces its lock (model:
+    `createRoundChange`, which reads the prepare container only for the justification list — `createRoundChange_prepared`).
+    Same literals / operators / calls as the reference. -/
+theorem C01_tie_round_change_data :
+    Gen.lits_qbft_node_getRoundChangeData =
+      ["&&", "!=", "!=", "!=", "32", "\"could not get round change justification\"", "!=", "32", "\"could not hash input data\"", "32"] ∧
+    Gen.lits_qbft_node_getRoundChangeData = Gen.lits_qbft_spec_getRoundChangeData ∧
+    Gen.calls_qbft_node_getRoundChangeData = ["getRoundChangeJustification", "HashDataRoot"] ∧
+    Gen.calls_qbft_node_getRoundChangeData = Gen.calls_qbft_spec_getRoundChangeData := by decide
+
+/-- the model's round-change of a prepared operator carries the lock whatever the prepare container holds -/
+theorem createRoundChange_prepared (cfg : Cfg) (s : State) (newRound : Nat)
+    (h : (s.lastPreparedRound != noRound && s.lastPreparedValue != 0) = true) :
+    (createRoundChange cfg s newRound).dataRound = s.lastPreparedRound ∧
+    (createRoundChange cfg s newRound).fullData = s.lastPreparedValue ∧
+    (createRoundChange cfg s newRound).root = hashData s.lastPreparedValue := by
+  simp [createRoundChange, h, ownMsg]
 
 end Ssv.Qbft
